@@ -115,7 +115,7 @@ NP_KERNELS = [
     ('statetraj.py', 'StateTrajInit', 'StateTraj', [
         ('__init__', dict(lean_name='init', params=['L[L[Int]]'], ret='T[L[L[Int]],L[Int]]', param_names=['trajs'],
                           facts={'isinstance(trajs, StateTraj)': False}, self_locals=['_trajs', '_states'],
-                          self_props={'nstates': 'len(self._states)'}, returns_self=['_trajs', '_states'],
+                          self_props={'nstates': 'len(self._states.copy())'}, returns_self=['_trajs', '_states'],
                           drop_stmts=['dtype = np.result_type(*self._trajs)'])),
     ]),
     ('statetraj.py', 'StateTrajAcc', 'StateTraj', [
@@ -2169,6 +2169,82 @@ class NpFn(Fn):
 
 # --------------------------------------------------------------------------- driver
 
+def check_self_props(tree, cls, sig):
+    """The table entry `self_props` says what reading a PROPERTY of the object means inside a translated method (`self.nstates` → `len(self._states.copy())`).
+    That text is checked against the class on every run: the property's source (its single `return`), with the properties it reads expanded in turn, must be the
+    table's text expanded the same way.  A changed property makes every method that reads it "no longer translated"."""
+    classes = {n.name: n for n in tree.body if isinstance(n, ast.ClassDef)}
+
+    def find(c, name, want_property=True):
+        if c not in classes:
+            return None
+        for m in classes[c].body:
+            if isinstance(m, ast.FunctionDef) and m.name == name and \
+                    (not want_property or any(isinstance(d, ast.Name) and d.id == 'property' for d in m.decorator_list)):
+                return m
+        for b in classes[c].bases:
+            if isinstance(b, ast.Name):
+                r = find(b.id, name, want_property)
+                if r is not None:
+                    return r
+        return None
+
+    def ret_expr(m):
+        body = [st for st in m.body if not (isinstance(st, ast.Expr) and isinstance(st.value, ast.Constant))]
+        if len(body) == 1 and isinstance(body[0], ast.Return) and body[0].value is not None:
+            return body[0].value
+        return None
+
+    class Expand(ast.NodeTransformer):
+        def __init__(self):
+            self.depth = 0
+
+        def visit_Attribute(self, node):
+            node = self.generic_visit(node)
+            if isinstance(node.value, ast.Name) and node.value.id == 'self' and self.depth < 6:
+                m = find(cls, node.attr)
+                r = ret_expr(m) if m is not None else None
+                if r is not None:
+                    import copy
+                    self.depth += 1
+                    out = self.visit(copy.deepcopy(r))
+                    self.depth -= 1
+                    return out
+            return node
+
+        def visit_Call(self, node):
+            node = self.generic_visit(node)
+            # len(self) is the object's __len__
+            if isinstance(node.func, ast.Name) and node.func.id == 'len' and len(node.args) == 1 and isinstance(node.args[0], ast.Name) and node.args[0].id == 'self':
+                m = find(cls, '__len__', want_property=False)
+                r = ret_expr(m) if m is not None else None
+                if r is not None:
+                    import copy
+                    return self.visit(copy.deepcopy(r))
+            return node
+
+    def norm(e):
+        import copy
+        return ast.unparse(Expand().visit(copy.deepcopy(e)))
+    probs = []
+    for k, text in sig.get('self_props', {}).items():
+        try:
+            table = ast.parse(text, mode='eval').body
+        except SyntaxError:
+            probs.append('self_props[%s] does not parse' % k)
+            continue
+        if k == 'len_self':
+            m = find(cls, '__len__', want_property=False)
+        else:
+            m = find(cls, k)
+        src_e = ret_expr(m) if m is not None else None
+        if src_e is None:
+            probs.append('property %s.%s not found or not a single return' % (cls, k))
+        elif norm(src_e) != norm(table):
+            probs.append('%s.%s is `%s` in the source but `%s` in the table' % (cls, k, norm(src_e), norm(table)))
+    return probs
+
+
 def translate_module(repo, relfile, ns, cls, funcs):
     import os
     import re as _re
@@ -2184,7 +2260,16 @@ def translate_module(repo, relfile, ns, cls, funcs):
     nodes = {n.name: n for n in body if isinstance(n, ast.FunctionDef)}
     fns, problems = {}, []
     order = []
+    stale = {}
+    if cls is not None:
+        for name, sig in funcs:
+            st_ = check_self_props(tree, cls, sig)
+            if st_:
+                stale[sig.get('lean_name') or name] = st_
     for name, sig in funcs:
+        if (sig.get('lean_name') or name) in stale:
+            problems.append('%s: the signature table no longer matches the class: %s' % (name, '; '.join(stale[sig.get('lean_name') or name])))
+            continue
         key = sig.get('lean_name') or name
         if name not in nodes:
             problems.append('%s: function %s not found in %s' % (ns, name, relfile))
